@@ -263,6 +263,9 @@ def rounding_left_knot(e):
 def run_part(rep, tier, part):
     f = part.split(":")
     e = E2(rep, tier)
+    # the hardest n=7 goals take ~17 s on an idle machine; the default quick cap of 20 s per query would turn them into
+    # "unknown" (exit 2) as soon as the machine is loaded, so the parts get a cap with head-room
+    e.cap_ms = max(e.cap_ms, 90000)
     exact_obligations(e, int(f[1]), group=tuple(int(x) for x in f[2:]))
     e.finish()
 
@@ -270,7 +273,7 @@ def run_part(rep, tier, part):
 def big_parts(tier):
     """knot counts decided in parallel subprocesses: (n, number of path groups)"""
     # one part per f_dx branch pattern (2^(n-2) of them): their difficulty is very uneven, the pool balances them
-    cfg = [(7, 32)] if tier == "quick" else [(5, 8), (6, 16), (7, 32), (8, 64), (9, 128)]
+    cfg = [(7, 32)] if tier == "quick" else [(5, 8), (6, 16), (7, 32), (8, 64)]
     J = 6  # and the goals of one pattern in J slices (the all-harmonic patterns carry most of the solver time)
     return ["exact:%d:%d:%d:%d:%d" % (n, k, K, j, J) for (n, K) in cfg for k in reversed(range(K)) for j in range(J)], [n for (n, _) in cfg]
 
